@@ -315,8 +315,12 @@ func (v *v0ProtocolMarshaler) unmarshalHeaders(reader io.Reader) (map[string]str
 			fmt.Sprintf("frugal: error reading protocol headers in unmarshalHeaders reading header size: %s", err))
 	}
 	size := int32(binary.BigEndian.Uint32(buff))
-	buff = make([]byte, size)
-	if _, err := io.ReadFull(reader, buff); err != nil {
+	if size < 0 {
+		return nil, thrift.NewTProtocolExceptionWithType(thrift.INVALID_DATA,
+			fmt.Errorf("frugal: invalid v0 protocol headers size %d", size))
+	}
+	buff, err := readFullBounded(reader, int(size))
+	if err != nil {
 		if e, ok := err.(thrift.TTransportException); ok && e.TypeId() == TRANSPORT_EXCEPTION_END_OF_FILE {
 			return nil, err
 		}
@@ -336,7 +340,7 @@ func (v *v0ProtocolMarshaler) unmarshalHeadersFromFrame(frame []byte) (map[strin
 			fmt.Errorf("frugal: invalid v0 frame size %d", len(frame)))
 	}
 	size := int32(binary.BigEndian.Uint32(frame))
-	if size > int32(len(frame[4:])) {
+	if size < 0 || size > int32(len(frame[4:])) {
 		return nil, thrift.NewTProtocolExceptionWithType(thrift.INVALID_DATA,
 			fmt.Errorf("frugal: v0 frame size %d does not match actual size %d", size, len(frame[4:])))
 	}
@@ -390,9 +394,13 @@ func (v *v0ProtocolMarshaler) readPairs(buff []byte, start, end int32) (map[stri
 	i := start
 	for i < end {
 		// Read header name.
+		if end-i < 4 {
+			return nil, thrift.NewTProtocolExceptionWithType(thrift.INVALID_DATA,
+				errors.New("frugal: invalid v0 protocol header name"))
+		}
 		nameSize := int32(binary.BigEndian.Uint32(buff[i : i+4]))
 		i += 4
-		if i > end || i+nameSize > end {
+		if nameSize < 0 || nameSize > end-i {
 			return nil, thrift.NewTProtocolExceptionWithType(thrift.INVALID_DATA,
 				errors.New("frugal: invalid v0 protocol header name"))
 		}
@@ -400,9 +408,13 @@ func (v *v0ProtocolMarshaler) readPairs(buff []byte, start, end int32) (map[stri
 		i += nameSize
 
 		// Read header value.
+		if end-i < 4 {
+			return nil, thrift.NewTProtocolExceptionWithType(thrift.INVALID_DATA,
+				errors.New("frugal: invalid v0 protocol header value"))
+		}
 		valueSize := int32(binary.BigEndian.Uint32(buff[i : i+4]))
 		i += 4
-		if i > end || i+valueSize > end {
+		if valueSize < 0 || valueSize > end-i {
 			return nil, thrift.NewTProtocolExceptionWithType(thrift.INVALID_DATA,
 				errors.New("frugal: invalid v0 protocol header value"))
 		}
@@ -412,6 +424,39 @@ func (v *v0ProtocolMarshaler) readPairs(buff []byte, start, end int32) (map[stri
 		headers[name] = value
 	}
 	return headers, nil
+}
+
+// readFullBounded reads exactly n bytes from the reader. The buffer grows with
+// the data actually received rather than being allocated up front, so a bogus
+// size read off the wire cannot force a huge allocation.
+func readFullBounded(reader io.Reader, n int) ([]byte, error) {
+	const chunk = 64 * 1024
+	if n <= chunk {
+		buff := make([]byte, n)
+		_, err := io.ReadFull(reader, buff)
+		return buff, err
+	}
+	buff := make([]byte, 0, chunk)
+	for len(buff) < n {
+		m := n - len(buff)
+		if m > chunk {
+			m = chunk
+		}
+		if cap(buff)-len(buff) < m {
+			grown := make([]byte, len(buff), 2*cap(buff)+m)
+			copy(grown, buff)
+			buff = grown
+		}
+		k, err := io.ReadFull(reader, buff[len(buff):len(buff)+m])
+		buff = buff[:len(buff)+k]
+		if err != nil {
+			if err == io.EOF && len(buff) > 0 {
+				err = io.ErrUnexpectedEOF
+			}
+			return buff, err
+		}
+	}
+	return buff, nil
 }
 
 func (v *v0ProtocolMarshaler) calculateHeaderSize(headers map[string]string) int32 {
